@@ -110,6 +110,11 @@ def main():
         for k in ("suite", "demo_passes_without_patch", "demo_fails_with_patch"):
             if prev.get(k) is not None and r.get(k) is None:
                 r[k] = prev[k]
+        # results of other properties' checks from earlier --all-props runs are kept (a seed may be caught, by design, by
+        # the check of another property only); the properties run now replace their earlier rows
+        if not all_props and prev.get("checks"):
+            r["checks"] = dict(prev["checks"], **r["checks"])
+            r["caught_by"] = [p for p, c in r["checks"].items() if c.get("violation") and c["exit"] == 1]
         old[r["name"]] = r
     json.dump(sorted(old.values(), key=lambda r: r["name"]), open(path, "w"), indent=1)
     missed = [r["name"] for r in out if not r.get("caught_by")]
